@@ -417,6 +417,51 @@ fn check_scale() -> Vec<Value> {
                                          "filters_consulted_of": consulted, "expected_consulted": want_consulted}}));
         }
     }
+    // many failing attachments on one record (Fanout.tla, HandleErr: one handler call per collected error, however many
+    // there are): 17, 33, 300 attachments - some appenders attached twice -, every other one failing
+    for n in [16usize, 17, 33, 300] {
+        let handled = Arc::new(AtomicUsize::new(0));
+        let mut b = log4rs::Config::builder();
+        let mut counters = vec![];
+        for j in 0..n {
+            let c = Arc::new(AtomicUsize::new(0));
+            counters.push(c.clone());
+            b = b.appender(log4rs::config::Appender::builder().build(format!("f{}", j), Box::new(ScriptedAppender { n: c, fail: j % 2 == 0 || n <= 33, flushes: Arc::new(AtomicUsize::new(0)) })));
+        }
+        let mut rb = log4rs::config::Root::builder();
+        let mut attachments = 0usize;
+        let mut failing = 0usize;
+        for j in 0..n {
+            for _ in 0..(if j % 5 == 0 { 2 } else { 1 }) {
+                rb = rb.appender(format!("f{}", j));
+                attachments += 1;
+                if j % 2 == 0 || n <= 33 {
+                    failing += 1;
+                }
+            }
+        }
+        let cfg = match b.build(rb.build(log::LevelFilter::Trace)) {
+            Ok(c) => c,
+            Err(e) => {
+                out.push(json!({"case": "scale", "input": {"failing_appenders": n}, "mismatch": {"what": "build failed", "error": e.to_string()}}));
+                continue;
+            }
+        };
+        let h2 = handled.clone();
+        let logger = log4rs::Logger::new_with_err_handler(cfg, Box::new(move |_e| {
+            h2.fetch_add(1, Ordering::SeqCst);
+        }));
+        if let Err(p) = catch(|| logger.log(&log::Record::builder().target("x").level(log::Level::Info).args(format_args!("m")).build())) {
+            out.push(json!({"case": "scale", "input": {"failing_appenders": n}, "mismatch": {"what": "log panicked", "error": p}}));
+            continue;
+        }
+        let calls: usize = counters.iter().map(|c| c.load(Ordering::SeqCst)).sum();
+        let got = handled.load(Ordering::SeqCst);
+        if got != failing || calls != attachments {
+            out.push(json!({"case": "scale", "input": {"appenders": n, "attachments": attachments, "failing_attachments": failing},
+                            "mismatch": {"what": "error handler calls with many failing appenders", "expected": failing, "actual": got, "append_calls": calls}}));
+        }
+    }
     out
 }
 
